@@ -384,6 +384,21 @@ func sprintf(fr *frame, format string, args []value) value {
 			ps = append(ps, spiece{k: pkOpaque, s: spec + ":" + x.String()})
 			continue
 		}
+		if st, ok := inner.(structure); ok {
+			if it, isI := a.(iface); !isI || !(hasMethod(fr, it.t, "String") || hasMethod(fr, it.t, "Error")) {
+				// fmt renders a struct as {f1 f2 ...}, applying the verb to each field
+				lit("{")
+				for k, f := range st {
+					if k > 0 {
+						lit(" ")
+					}
+					sub := sprintf(fr, spec, []value{f})
+					ps = append(ps, symstrOf(sub).p...)
+				}
+				lit("}")
+				continue
+			}
+		}
 		h, sp := hostFmtArg(fr, a)
 		if sp != nil {
 			ps = append(ps, *sp)
@@ -554,6 +569,7 @@ func init() {
 		if len(old) != 1 || old[0] >= 0x80 {
 			panic(pathEnd{kind: Inconclusive, msg: "strings.ReplaceAll on symbolic string with multi-byte pattern"})
 		}
+		inNumber := strings.IndexByte("0123456789-+.eENaInf", old[0]) >= 0
 		var ps []spiece
 		for _, p := range s.p {
 			switch p.k {
@@ -565,8 +581,13 @@ func init() {
 				} else {
 					ps = append(ps, p)
 				}
+			case pkItoa, pkUtoa, pkFtoa:
+				if inNumber {
+					panic(pathEnd{kind: Inconclusive, msg: "strings.ReplaceAll of a character that may occur in a formatted symbolic number"})
+				}
+				ps = append(ps, p)
 			default:
-				panic(pathEnd{kind: Inconclusive, msg: "strings.ReplaceAll on byte/formatted pieces"})
+				panic(pathEnd{kind: Inconclusive, msg: "strings.ReplaceAll on byte/opaque pieces"})
 			}
 		}
 		return normStr(ps)
